@@ -133,7 +133,24 @@ func c09Corpus(r *vf.Run) []parseInput {
 		sb.WriteString(strings.Repeat(")", depth/10))
 		add("nesting", sb.String())
 	}
+	// an error early in a long input (the lexer still has thousands of tokens to deliver), and errors at special places
+	for _, n := range []int{10, 100, 1000, 20000} {
+		add("early-error-long-tail", `) `+strings.Repeat(`a="1" & `, n)+`b="2"`)
+		add("early-error-long-tail", `a = = `+strings.Repeat(`"x" `, n))
+		add("early-error-long-tail", `a="1" ; `+strings.Repeat(`b, `, n)+`"c"`)
+		add("early-error-long-tail", "a=\"l1\nl2\nl3\" &\n\n & "+strings.Repeat(`(b="2") | `, n)+`c="3"`)
+	}
+	for _, sfx := range []string{"é", "\n", "\"\n\"", "日本", "\xff", " é", "\n\né"} {
+		add("error-position", sfx)
+		add("error-position", `a="1" `+sfx)
+		add("error-position", sfx+` a="1"`)
+		add("error-position", "a=\"multi\nline\nvalue\" "+sfx)
+	}
 	add("long-chain", strings.Repeat(`a="1" & `, 20000)+`b="2"`)
+	for _, n := range []int{63, 64, 65, 127, 128, 129, 255, 256, 257, 1023, 1024, 1025} {
+		add("chain-length", strings.Repeat(`a="1" & `, n-1)+`b="2"`)
+		add("chain-length", strings.Repeat(`a="1" | `, n-1)+`b="2" ; a`)
+	}
 	add("long-chain", strings.Repeat(`a="1" | `, 20000)+`b="2" ; a`+strings.Repeat(`, b`, 5000))
 	add("long-value", `a="`+strings.Repeat(`x""`, 100000)+`"`)
 	return out
